@@ -29,13 +29,26 @@ def gen_inputs(rng, spec, n=None, engines_ok=None):
         for l in loads:
             scale = min(l["rated"], 0.6 * total / len(loads))
             inp["comp"][l["name"]] = {"load": [float(np.round(rng.uniform(0.0, 0.9) * scale, 2)) if rng.random() < 0.9 else 0.0 for _ in range(n)]}
+    # one set-point series (one array object) for the PTI/PTOs of several shaft lines, one load series for several propellers:
+    # what a user does for a twin-screw vessel
+    inp["alias"] = bool(rng.random() < 0.3)
+    first_shaft = None
     for c in spec["mechanical"]:
         if c["kind"] == "pti_pto_ref":
             p = pti_specs[c["name"]]
             lim = 0.9 * p["rated"]
-            inp["comp"][c["name"]] = {"shaft": [float(np.round(rng.uniform(-lim, lim), 2)) if rng.random() < 0.8 else 0.0 for _ in range(n)],
+            shaft = [float(np.round(rng.uniform(-lim, lim), 2)) if rng.random() < 0.8 else 0.0 for _ in range(n)]
+            if inp["alias"] and first_shaft is not None and max(abs(x) for x in first_shaft) <= lim:
+                shaft = list(first_shaft)
+            first_shaft = first_shaft or shaft
+            inp["comp"][c["name"]] = {"shaft": shaft,
                                       "full": [bool(rng.random() < 0.25) for _ in range(n)],
                                       "status": [True] * n}
+    if inp["alias"]:
+        loads = [c for c in spec["mechanical"] if c["kind"] == "mech_load"]
+        for a, b in zip(loads, loads[1:]):
+            if rng.random() < 0.5 and max(inp["comp"][a["name"]]["load"]) <= b["rated"]:
+                inp["comp"][b["name"]]["load"] = list(inp["comp"][a["name"]]["load"])
     return inp
 
 
@@ -43,16 +56,26 @@ def apply_inputs(plant, inp):
     n = inp["n"]
     st_dt = {"bool": bool, "int": int, "float": float}[inp.get("dtype", {}).get("status", "bool")]
     on_vector = np.ones(n, dtype=st_dt)
+    cache = {}
+
+    def arr(values, dt=float):
+        """a fresh array, or (alias mode) the one array object already made for the same series"""
+        if not inp.get("alias"):
+            return np.array(values, dtype=dt)
+        key = (np.dtype(dt).name, tuple(values))
+        if key not in cache:
+            cache[key] = np.array(values, dtype=dt)
+        return cache[key]
     for c in plant.spec["mechanical"]:
         obj, d = plant.by_name[c["name"]], inp["comp"][c["name"]]
         if c["kind"] == "main_engine":
             obj.status = on_vector if (inp.get("shared_on_vector") and len(d["status"]) == n and all(d["status"])) else np.array(d["status"], dtype=st_dt)
         elif c["kind"] == "mech_load":
-            obj.set_power_input_from_output(np.array(d["load"], dtype=float))
+            obj.set_power_input_from_output(arr(d["load"]))
         else:
             obj.status = np.array(d["status"], dtype=bool)
             obj.full_pti_mode = np.array(d["full"], dtype=bool)
-            obj.set_power_input_from_output(np.array(d["shaft"], dtype=float))
+            obj.set_power_input_from_output(arr(d["shaft"]))
     plant.mechanical.set_time_interval(np.array(inp["dt"], dtype=float), integration_method=IntegrationMethod.sum_with_time)
 
 
